@@ -27,6 +27,9 @@ def gen_params(rng, tool=None, small=False, erasures=None):
         if er:
             P.erasures = True
             P.erasure_symbol = rng.choice([0, 0, 0x20])
+        elif rng.random() < 0.15:
+            # an erasure symbol given without erasure handling (must change nothing), one that occurs in ordinary names
+            P.erasure_symbol = rng.choice([0x20, 0x61, 0x2e])
         if P.well_formed():
             if rng.random() < 0.3:
                 # header size an exact multiple of the stage-1 message size: a block then starts exactly at offset `--size`
